@@ -662,25 +662,23 @@ Qed.
 (* ---------------------------------------------------------------- non-vacuity *)
 Definition example_ice : Ice := default_antarctic.
 Definition example_tracer : Tracer := mkTracer (0, 0, -200) (100, 0, -100) example_ice 1.
-Definition example_path : Path := mkPath (0, 0, -200) (100, 0, -100) (PI / 4) example_ice 1 true.
+Definition example_path : Path := mkPath (0, 0, 0) (100, 0, 0) (PI / 6) example_ice 1 true.
 
 Lemma example_good : good example_ice /\ wf example_ice.
 Proof. split; [|exact default_wf]. unfold good, example_ice, default_antarctic; simpl. lra. Qed.
 
-Lemma example_index z : -2850 <= z <= 0 -> AntarcticIce_index example_ice z = 1.78 - 0.43 * exp (0.0132 * z).
+Lemma example_index0 : AntarcticIce_index example_ice 0 = 1.35.
 Proof.
-  intros Hz. rewrite (index_inside example_ice z default_wf); [reflexivity|].
-  unfold lo, hi, example_ice, default_antarctic; simpl. lra.
+  rewrite (index_inside example_ice 0 default_wf); [|unfold lo, hi, example_ice, default_antarctic; simpl; lra].
+  unfold nzs, nz, example_ice, default_antarctic; simpl. rewrite Rmult_0_r, exp_0. lra.
 Qed.
 
-From Interval Require Import Tactic.
-
 Lemma example_beta_in_range :
-  SPath_beta_tolerance < SPath_beta example_path < nzs example_ice (-100) /\
+  SPath_beta_tolerance < SPath_beta example_path < nzs example_ice 0 /\
   -1 <= snell_arg example_path (SPath_z1 example_path) <= 1.
 Proof.
   unfold SPath_beta, SPath_n0, SPath_z0, snell_arg, SPath_z1, SPath_n0, SPath_z0, example_path, SPath_beta_tolerance; simpl.
-  rewrite !example_index by (unfold vz; simpl; lra).
-  unfold nzs, nz, example_ice, default_antarctic, vz; simpl.
-  repeat split; interval.
+  unfold vz; simpl. rewrite !example_index0, sin_PI6.
+  unfold nzs, nz, example_ice, default_antarctic; simpl. rewrite Rmult_0_r, exp_0.
+  repeat split; lra.
 Qed.
